@@ -1723,7 +1723,8 @@ func (pc *PeerConnection) startRTPReceivers(remoteDesc *SessionDescription, curr
 				Direction: RTPTransceiverDirectionSendrecv,
 			})
 			if err != nil {
-				pc.log.Warnf("Could not add transceiver for remote SSRC %d: %s", incomingTrack.ssrcs[0], err)
+				pc.log.Warnf("Could not add transceiver for remote track (mid %q, SSRCs %v): %s",
+					incomingTrack.mid, incomingTrack.ssrcs, err)
 
 				continue
 			}
